@@ -53,3 +53,5 @@ def check(v, tier, opts):
     v.outside.append("slice(a, b) with b > len or a > b (panics / backend-specific); lengths above the bound")
     kani_engine.decide(v, "C07", tier, opts)
     return v.finish(RULE)
+
+READY = True
